@@ -69,12 +69,14 @@ func (info ReportingMTAInfo) WriteTo(utf8 bool, w io.Writer) error {
 	h.Add("Reporting-MTA", "dns; "+reportingMTA)
 
 	if info.ReceivedFromMTA != "" {
+		// The field is optional and its value is whatever the client called
+		// itself in HELO/EHLO. A name that cannot be converted (e.g. a
+		// malformed A-label) is left out: it is not a reason to lose the
+		// whole report.
 		receivedFromMTA, err := dns.SelectIDNA(utf8, info.ReceivedFromMTA)
-		if err != nil {
-			return fmt.Errorf("dsn: cannot convert Received-From-MTA to a suitable representation: %w", err)
+		if err == nil {
+			h.Add("Received-From-MTA", "dns; "+receivedFromMTA)
 		}
-
-		h.Add("Received-From-MTA", "dns; "+receivedFromMTA)
 	}
 
 	if info.XSender != "" {
